@@ -76,20 +76,46 @@ func c07(r *core.Run) {
 		nRem++
 		r.Analysed(core.FnName(fn))
 		construct := core.FnName(fn) + ":no-spaceused-decrement"
-		var planWrite *core.Effect
-		var planCall ssa.CallInstruction
+		// the unit that writes the plan record directly: fn itself or a helper it calls (then hop is the call in fn)
+		unit := fn
+		var planCall, hop ssa.CallInstruction
 		for _, e := range p.Effects(fn) {
-			if c, ok := e.Instr.(ssa.CallInstruction); ok && effHas(e, "Set", stPay) {
-				planWrite, planCall = e, c
+			c, ok := e.Instr.(ssa.CallInstruction)
+			if !ok || !effHas(e, "Set", stPay) {
+				continue
+			}
+			if cal, _ := directOpCallee(p, c, "Set", stPay); cal != nil {
+				unit, planCall, hop = fn, c, nil
+				continue
+			}
+			if planCall != nil {
+				continue
+			}
+			for _, g := range p.Callees(c) {
+				allInstrs(g, func(in ssa.Instruction) {
+					ic, isCall := in.(ssa.CallInstruction)
+					if !isCall {
+						return
+					}
+					if cal, _ := directOpCallee(p, ic, "Set", stPay); cal != nil && cal != g {
+						unit, planCall, hop = g, ic, c
+					}
+				})
 			}
 		}
-		if planWrite == nil {
+		if planCall == nil {
 			r.Violation("C07/R1", construct, p.InstrPos(del.Instr), "a stored file is removed without returning its footprint to the owner's plan: the plan's used space only ever grows (post a plan-paid file, delete it, the space is still reported used)")
 			continue
 		}
+		res := func(pr core.Prov) core.Prov {
+			if unit == fn {
+				return pr
+			}
+			return p.ResolveToEntry(pr, fn)
+		}
 		args := dataArgs(planCall)
 		rec := args[len(args)-1]
-		up := p.ProvAt(rec, ".SpaceUsed", planCall)
+		up := res(p.ProvAt(rec, ".SpaceUsed", planCall))
 		okDep := up.HasStore(stPay, ".SpaceUsed") && up.HasStore(stFiles, ".FileSize") && up.HasStore(stFiles, ".MaxProofs")
 		// shape: a subtraction
 		isSub := false
@@ -110,7 +136,7 @@ func c07(r *core.Run) {
 		okOwner := len(ap) == 1 && ap[0].Kind == "store" && ap[0].Name == stPay
 		if okOwner {
 			for _, a := range dataArgs(ap[0].Call) {
-				kp := p.ProvAt(a, "", ap[0].Call).DataAtoms()
+				kp := res(p.ProvAt(a, "", ap[0].Call)).DataAtoms()
 				if !(len(kp) == 1 && kp[0].Kind == "store" && kp[0].Name == stFiles && kp[0].Path == ".Owner") {
 					okOwner = false
 				}
@@ -118,13 +144,13 @@ func c07(r *core.Run) {
 		}
 		r.Check(okOwner, "C07/R1", core.FnName(fn)+":footprint-to-owner", p.InstrPos(planCall), "plan record loaded by the removed file's Owner", "the footprint is returned to a plan other than the file owner's")
 		// every deleting path on the plan-paid branch passes the plan write (given the plan exists)
-		paidOnce := p.PassEdges(fn, func(ca *core.CondAtom, truth bool) bool {
+		paidOnce := p.PassEdges(unit, func(ca *core.CondAtom, truth bool) bool {
 			// edges on which the file is NOT plan-paid (Expires != 0) or the plan record is missing
 			if ca.Kind == "found" && !truth && p.ProvAt(ca.X, "", ca.If).HasStore(stPay, "#found") {
 				return true
 			}
 			if ca.Kind == "eq" {
-				px, py := p.ProvAt(ca.X, "", ca.If), p.ProvAt(ca.Y, "", ca.If)
+				px, py := res(p.ProvAt(ca.X, "", ca.If)), res(p.ProvAt(ca.Y, "", ca.If))
 				exp := func(pr core.Prov) bool { return pr.HasStore(stFiles, ".Expires") }
 				zero := func(pr core.Prov) bool {
 					return pr.Any(func(a core.Atom) bool { return a.Kind == "const" && a.Name == "0" }) && len(pr.DataAtoms()) == 0
@@ -135,17 +161,23 @@ func c07(r *core.Run) {
 			}
 			return false
 		})
-		bad := p.BypassExistsAvoiding(fn, fn.Blocks[0].Instrs[0], planCall, true, paidOnce) != nil && func() bool {
-			// is there a path entry -> delete that avoids the plan write and the not-plan-paid edges?
-			blocked := map[core.Edge]bool{}
-			for e := range paidOnce {
-				blocked[e] = true
-			}
-			for e := range edgesInto(fn, planCall) {
-				blocked[e] = true
-			}
-			return core.PathExists(fn, blocked, del.Instr, nil)
-		}()
+		var bad bool
+		if unit == fn {
+			bad = p.BypassExistsAvoiding(fn, fn.Blocks[0].Instrs[0], planCall, true, paidOnce) != nil && func() bool {
+				// is there a path entry -> delete that avoids the plan write and the not-plan-paid edges?
+				blocked := map[core.Edge]bool{}
+				for e := range paidOnce {
+					blocked[e] = true
+				}
+				for e := range edgesInto(fn, planCall) {
+					blocked[e] = true
+				}
+				return core.PathExists(fn, blocked, del.Instr, nil)
+			}()
+		} else {
+			// the helper is called on every removing path, and inside it only the not-plan-paid edges skip the write
+			bad = !pairedOnAllPaths(p, fn, del.Instr, hop) || p.BypassExistsAvoiding(unit, unit.Blocks[0].Instrs[0], planCall, true, paidOnce) != nil
+		}
 		r.Check(!bad, "C07/R1", core.FnName(fn)+":footprint-on-every-removal", p.InstrPos(del.Instr), "every plan-paid removal path returns the footprint", "a path removes a plan-paid file of an account with a plan without returning its footprint")
 	}
 	r.Floor("C07/R1", nRem, 1, "file removers on transaction/block paths")
